@@ -332,6 +332,9 @@ fn parse_cron_part(
                 return Err("Can't find end number of range".to_string());
             }
             let end = parse_value(end, cron_type)?;
+            if range_parts.next().is_some() {
+                return Err("A range consists of exactly one start and one end value".to_string());
+            }
 
             if start > end {
                 return Err(
